@@ -45,6 +45,7 @@ class TLCResult:
         self.wall = 0.0
         self.completed = False
         self.postcondition_failed = False
+        self.left_on_queue = 0
 
     @property
     def ok(self):
@@ -52,7 +53,7 @@ class TLCResult:
 
 
 _STATE_RE = re.compile(r"^State (\d+): (.*)$")
-_COV_RE = re.compile(r"^<(\w+) line (\d+), col (\d+) to line (\d+), col (\d+) of module (\w+)>: (\d+):(\d+)")
+_COV_RE = re.compile(r"^<(\w+) line (\d+), col (\d+) to line (\d+), col (\d+) of module (\w+)(?: \([^)]*\))?>: (\d+):(\d+)")
 
 
 def parse_output(text):
@@ -138,10 +139,11 @@ def parse_output(text):
             cur_err.states.append((label, tlaval.parse_state("\n".join(buf))))
             i = j
             continue
-        m = re.match(r"^(\d+) states generated, (\d+) distinct states found", ln)
+        m = re.match(r"^(\d+) states generated, (\d+) distinct states found, (\d+) states left on queue", ln)
         if m:
             res.generated = int(m.group(1))
             res.distinct = int(m.group(2))
+            res.left_on_queue = int(m.group(3))
         m = re.match(r"^The depth of the complete state graph search is (\d+)", ln)
         if m:
             res.depth = int(m.group(1))
@@ -253,6 +255,9 @@ def run(
     res.returncode = p.returncode
     if not res.completed and not res.errors:
         raise MachineryError("TLC did not complete on %s:\n%s" % (module, out[-3000:]))
+    if res.left_on_queue and not res.errors and not simulate:
+        raise MachineryError("TLC stopped with %d states left on its queue on %s:\n%s" % (
+            res.left_on_queue, module, out[-3000:]))
     # parse / semantic errors of the spec itself are machinery failures
     if "Parsing or semantic analysis failed" in out or "*** Errors:" in out or "Error: Parsing" in out:
         raise MachineryError("spec does not parse (%s):\n%s" % (module, out[-3000:]))
